@@ -69,3 +69,18 @@ CHECKS["C19"] = {
     "technique": "contract-based deductive verification: symbolic execution of the real command bodies, forwarding/dataflow obligations over logged uninterpreted calls; CliRunner replay",
 }
 NOT_APPLICABLE.pop("C19", None)
+
+CHECKS["C17"] = {
+    "category": "proof",
+    "text": ("PatchSet.__init__ is verified with a loop invariant over a dictionary with symbolic keys (names: strings, values: real sequences; any "
+             "number of patches): the lookup table contains exactly the names and value tuples of the patches seen so far, each mapping to its "
+             "patch; InvalidPatchSet is raised iff a name or value tuple repeats or len(values) != len(labels), and for no other reason (this "
+             "invariant's base case found the table seeded with the keys 'name'/'values', repaired by a fix: commit). __getitem__ under the "
+             "invariant: returns patch j iff the key is its name or value tuple (list or tuple), else InvalidPatchLookup. verify: loop invariant, "
+             "returns normally iff every listed digest matches, else PatchSetVerificationError. apply: verify first, then "
+             "Workspace(self[key].apply(spec)) without in_place. Patch properties; utils.digest wiring and ValueError paths."),
+    "note": ("schema validity is a precondition (names are strings, values numeric tuples); jsonpatch.apply non-mutating and json.dumps(sort_keys)/"
+             "hash properties (order insensitivity, value sensitivity) are external assumptions"),
+    "technique": "contract-based deductive verification: loop invariants over z3 arrays (map representation invariant with ghost witness), z3; native replay battery",
+}
+NOT_APPLICABLE.pop("C17", None)
